@@ -629,14 +629,15 @@ func (d *Decimal) Modf(integ, frac *Decimal) {
 
 	// No fractional part.
 	if d.Exponent > 0 {
+		// Copy d before clearing frac: frac may be d itself.
+		if integ != nil {
+			integ.Set(d)
+		}
 		if frac != nil {
 			frac.Form = Finite
 			frac.Negative = neg
 			frac.Exponent = 0
 			frac.Coeff.SetInt64(0)
-		}
-		if integ != nil {
-			integ.Set(d)
 		}
 		return
 	}
@@ -644,14 +645,15 @@ func (d *Decimal) Modf(integ, frac *Decimal) {
 	exp := -int64(d.Exponent)
 	// d < 0 because exponent is larger than number of digits.
 	if exp > nd {
+		// Copy d before clearing integ: integ may be d itself.
+		if frac != nil {
+			frac.Set(d)
+		}
 		if integ != nil {
 			integ.Form = Finite
 			integ.Negative = neg
 			integ.Exponent = 0
 			integ.Coeff.SetInt64(0)
-		}
-		if frac != nil {
-			frac.Set(d)
 		}
 		return
 	}
@@ -674,7 +676,8 @@ func (d *Decimal) Modf(integ, frac *Decimal) {
 	if frac != nil {
 		icoeff.QuoRem(&d.Coeff, e, &frac.Coeff)
 		frac.Form = Finite
-		frac.Exponent = d.Exponent
+		// integ may be d itself, whose exponent was just overwritten.
+		frac.Exponent = int32(-exp)
 		frac.Negative = neg
 	} else {
 		// This is the frac == nil, which means integ must not be nil since they both
